@@ -216,6 +216,12 @@ class S16(explore.Spec):
     # on, and the topology answers must still agree with the document
     if observe.ill_typed(g):
       return [("skip", "ill-typed reference")]
+    if err is None:
+      # the topology queries go by identifier: an operation that was accepted
+      # must leave every identifier with exactly one meaning
+      inc = invariants.namespace_coherence(g)
+      if inc:
+        return [("incoherent-namespace", inc[0])]
     if invariants.placeholders(g):
       return []
     txt = str(g)
@@ -264,6 +270,7 @@ H2 = [T(["S", "a", "4", "*"]), T(["S", "b", "4", "*"]), T(["S", "c", "4", "*"]),
       T(["E", "e4", "a+", "c+", "0", "4$", "1", "3", "*"]),
       T(["E", "e5", "a+", "b-", "1", "2", "1", "2", "*"]),
       T(["E", "e6", "c-", "a-", "0", "2", "2", "4$", "*"]),
+      T(["E", "e7", "b+", "c-", "0", "4$", "0", "3", "*"]),   # 2nd containment
       T(["O", "o", "a+ b+"]), T(["E", "*", "a-", "o+", "0", "1", "0", "1", "*"])]
 
 S16(name="c16.g1", universe=universe.G1, version="gfa1",
@@ -447,7 +454,7 @@ def run(ctx):
   # universe loaded (branching ends, parallel edges, cycles, a path / group),
   # then every history of removals, renames and re-additions
   d2 = 2 if ctx.quick else 3
-  for name, U in (("c16.h1", H1[:12]), ("c16.h2", H2[:11])):
+  for name, U in (("c16.h1", H1[:12]), ("c16.h2", H2[:12])):
     label = name + "@full"
     done[label] = explore.bfs(px, explore.SPECS[name], d2, label=label,
                               prefix=[("add", l) for l in U])[0]
